@@ -20,6 +20,7 @@ def main(tier, replay=None):
         S.model_check(sc.chk, sc.work, "N4W3S4", {"N": 4, "Workers": 3, "Steps": 4, "MaxPn": 14}, INV, PROPS, timeout=3000)
         S.model_check(sc.chk, sc.work, "N5W2S3", {"N": 5, "Workers": 2, "Steps": 3, "MaxPn": 12}, INV, PROPS, timeout=3000)
         S.model_check(sc.chk, sc.work, "N3W2S3_kill", {"N": 3, "Workers": 2, "Steps": 3, "MaxRestarts": 1, "MoreSteps": 1, "MaxPn": 12}, INV, PROPS, timeout=3000, required=("InitPick", "LoopPick", "Complete", "Finish", "Kill", "Restart"))
+    S.sort_states(sc, "N4W3S4", {"N": 4, "Workers": 3, "Steps": 4, "MaxPn": 14} if not q else {"N": 4, "Workers": 2, "Steps": 3, "MaxPn": 12})
     sc.replay_behaviours("N3W2S4", {"N": 3, "Workers": 2, "Steps": 4, "MaxPn": 12}, 120 if q else 1500, 16)
     sc.replay_behaviours("N4W3S5_2eng", {"N": 4, "Workers": 3, "Steps": 5, "MaxPn": 16, "EngTypes": "TwoEngines", "EngNeed": "TwoNeed"}, 120 if q else 1500, 20)
     if not q:
